@@ -326,6 +326,7 @@ func (p *parser) parsePrecList(Tklist *[]TokenDef) []PrecDef {
 				idvalue = charCode(p.current.Value)
 			}
 			numbered := false
+			alias := ""
 			if p.current.Is(Identifier) {
 				// a token number may follow the name (`%left MINUS 301 PLUS`)
 				p.next()
@@ -333,6 +334,13 @@ func (p *parser) parsePrecList(Tklist *[]TokenDef) []PrecDef {
 					if intVar, err := strconv.Atoi(p.current.Value); err == nil {
 						idvalue, numbered = intVar, true
 					}
+				} else {
+					p.backup()
+				}
+				// an alias may follow, as on a %token line: it does not end the list
+				p.next()
+				if p.current.Is(StringKind) {
+					alias = p.current.Value
 				} else {
 					p.backup()
 				}
@@ -345,7 +353,7 @@ func (p *parser) parsePrecList(Tklist *[]TokenDef) []PrecDef {
 					Name:  IdName,
 					Value: idvalue,
 					IDTyp: TERMID,
-					Alias: "",
+					Alias: alias,
 				}
 				p.TokenDefMap[IdName] = true
 				Tokdef.IdentifyList = append(Tokdef.IdentifyList, id)
